@@ -36,9 +36,13 @@ type injSpec struct {
 	Elem  int    `json:"elem"`
 	Kind  string `json:"kind"` // +1 | random | other | empty | mirror | drop-field
 	Seed  int64  `json:"seed"`
+	OneTo int    `json:"one_to,omitempty"` // k > 0: only the copy addressed to the recipient with committee index k-1 is altered
 }
 
 func (s injSpec) String() string {
+	if s.OneTo > 0 {
+		return fmt.Sprintf("%s dev=%d %s.%s[%d] %s only-to=%d seed=%d", s.Proto, s.Dev, s.Type, s.Field, s.Elem, s.Kind, s.OneTo-1, s.Seed)
+	}
 	return fmt.Sprintf("%s dev=%d %s.%s[%d] %s seed=%d", s.Proto, s.Dev, s.Type, s.Field, s.Elem, s.Kind, s.Seed)
 }
 
@@ -209,8 +213,15 @@ func c05Protos(rng *rand.Rand) []c05Proto {
 				keys[i] = edKs.keys[i]
 				keys[i].Xi = new(big.Int).Set(edKs.keys[i].Xi)
 			}
-			return eddsaResharingNet(r, keys, edKs.pids[:2], 1, makePIDs([]*big.Int{big.NewInt(5001), big.NewInt(5002), big.NewInt(5003)}, "N"), 1)
+			net := eddsaResharingNet(r, keys, edKs.pids[:2], 1, makePIDs([]*big.Int{big.NewInt(5001), big.NewInt(5002), big.NewInt(5003)}, "N"), 1)
+			for i := range keys {
+				net.HeldXi = append(net.HeldXi, keys[i].Xi)
+			}
+			return net
 		}, checkOut: func(net *Net, honest []int) string {
+			if s := erasedWithoutKey(net, honest); s != "" {
+				return s
+			}
 			for _, i := range honest {
 				if net.Nodes[i].Role != "new" {
 					continue
@@ -253,8 +264,15 @@ func c05Protos(rng *rand.Rand) []c05Proto {
 			keys[i] = eks.keys[i]
 			keys[i].Xi = new(big.Int).Set(eks.keys[i].Xi)
 		}
-		return ecdsaResharingNet(r, keys, eks.pids[:3], eks.t, makePIDs([]*big.Int{big.NewInt(6001), big.NewInt(6002), big.NewInt(6003)}, "N"), 1, true, 1)
+		net := ecdsaResharingNet(r, keys, eks.pids[:3], eks.t, makePIDs([]*big.Int{big.NewInt(6001), big.NewInt(6002), big.NewInt(6003)}, "N"), 1, true, 1)
+		for i := range keys {
+			net.HeldXi = append(net.HeldXi, keys[i].Xi)
+		}
+		return net
 	}, checkOut: func(net *Net, honest []int) string {
+		if s := erasedWithoutKey(net, honest); s != "" {
+			return s
+		}
 		for _, i := range honest {
 			if net.Nodes[i].Role != "new" {
 				continue
@@ -347,6 +365,24 @@ func enumerateSpecs(rng *rand.Rand, p c05Proto, perField int) []injSpec {
 				}
 			}
 			specs = append(specs, injSpec{Proto: p.name, Dev: dev, Type: t, Kind: "mirror", Seed: rng.Int63()})
+			// point-to-point messages: the same alteration in the copy for ONE recipient only (the others get the
+			// honest message), for a recipient other than the one sharing the deviator's index
+			if len(m.GetTo()) == 1 && !m.IsBroadcast() {
+				nrec := 0
+				for _, m2 := range net.Nodes[dev].Emitted {
+					if shortType(m2.Type()) == t && len(m2.GetTo()) == 1 && m2.GetTo()[0].Index+1 > nrec {
+						nrec = m2.GetTo()[0].Index + 1
+					}
+				}
+				own := net.Nodes[dev].ID.Index
+				for _, fd := range byteFields(c) {
+					for _, k := range []string{"+1", "negq"} {
+						for off := 1; off <= 2 && off < nrec; off++ {
+							specs = append(specs, injSpec{Proto: p.name, Dev: dev, Type: t, Field: string(fd.Name()), Kind: k, Seed: rng.Int63(), OneTo: (own+off)%nrec + 1})
+						}
+					}
+				}
+			}
 		}
 	}
 	return specs
@@ -397,6 +433,9 @@ func runInjection(p c05Proto, s injSpec) injResult {
 	}
 	net.Tamper = func(from int, m tss.Message) []tss.Message {
 		if from != s.Dev || shortType(m.Type()) != s.Type {
+			return []tss.Message{m}
+		}
+		if s.OneTo > 0 && (len(m.GetTo()) != 1 || m.GetTo()[0].Index != s.OneTo-1) {
 			return []tss.Message{m}
 		}
 		tm, ok := tamperMsg(rng, m, donor, s)
@@ -617,6 +656,9 @@ func runC05(r *Run, rng *rand.Rand, thorough bool) {
 					continue
 				}
 				k := fmt.Sprintf("%s.%s@%d", sp.Type, sp.Field, sp.Dev)
+				if sp.OneTo > 0 {
+					k += "/one-recipient"
+				}
 				if sp.Kind == "mirror" {
 					k = fmt.Sprintf("%s/mirror@%d", sp.Type, sp.Dev)
 				}
@@ -664,7 +706,12 @@ func runC05(r *Run, rng *rand.Rand, thorough bool) {
 				r.Samples = append(r.Samples, fmt.Sprintf("%s -> errors=%v outputs=%d", s.String(), ir.Errors, ir.Outputs))
 			}
 			r.Assert(len(ir.Panics) == 0, "panic/"+site, "no-panic-under-injection", func() string { return s.String() + " " + strings.Join(ir.Panics, "; ") })
-			r.Assert(ir.BadOut == "", "bad-output/"+site, "no-honest-party-outputs-invalid-data", func() string { return s.String() + " " + ir.BadOut })
+			if strings.Contains(ir.BadOut, "erased its share although") {
+				// the resharing clause: keyed by where the deviation was made (message type and field), whatever the kind
+				r.Assert(false, fmt.Sprintf("key-lost/%s/%s.%s", s.Proto, s.Type, s.Field), "erased-old-share-implies-every-honest-new-member-has-key-data", func() string { return s.String() + " " + ir.BadOut })
+			} else {
+				r.Assert(ir.BadOut == "", "bad-output/"+site, "no-honest-party-outputs-invalid-data", func() string { return s.String() + " " + ir.BadOut })
+			}
 			// values no commitment, share check or proof covers: an alteration shows only as a failed final
 			// self-check, which cannot be attributed (the property allows "nobody" there)
 			uncovered := map[string]bool{
@@ -703,4 +750,20 @@ func runC05(r *Run, rng *rand.Rand, thorough bool) {
 			}
 		}
 	}
+}
+
+// erasedWithoutKey: the resharing clause of "no bad output": an honest old member's share may be erased only when every
+// honest new member has emitted its key data (net.HeldXi are the old members' share objects, in node order)
+func erasedWithoutKey(net *Net, honest []int) string {
+	for _, i := range honest {
+		if net.Nodes[i].Role != "old" || i >= len(net.HeldXi) || net.HeldXi[i].Sign() != 0 {
+			continue
+		}
+		for _, j := range honest {
+			if net.Nodes[j].Role == "new" && len(net.Nodes[j].Ends) == 0 {
+				return fmt.Sprintf("honest old member %s erased its share although honest new member %s emitted no key data", net.Nodes[i].Name, net.Nodes[j].Name)
+			}
+		}
+	}
+	return ""
 }
